@@ -107,6 +107,16 @@ def zw_components(quick=3000, thorough=100000):
     return [{"harness": f"h_zwiden_{d}", "source": "h_zwiden", "defines": [f"-DVDOM={d}"], "quick": quick,
              "thorough": thorough, "shards": 2, "corpus": "h_zwiden", "nontrivial": nt} for d in ZW_IDS]
 
+# octagon widening chains (split_oct operator|| as coded) replayed by the PROVED model CrabModel/Dom/OctWiden.lean
+OW_IDS = [8, 27]
+
+
+def ow_components(quick=2000, thorough=40000):
+    nt = lambda l: (lambda m: bool(m) and m.group(1).count("0") >= 2)(re.search(r"\(st ([01]+)\)", l))
+    return [{"harness": f"h_owiden_{d}", "source": "h_owiden", "defines": [f"-DVDOM={d}"], "quick": quick,
+             "thorough": thorough, "shards": 2, "corpus": "h_owiden", "nontrivial": nt} for d in OW_IDS]
+
+
 DOM_RULE = ("operation histories (6-34 ops quick, up to 66 thorough, after a seeding phase) over a pool of 4 abstract values and 5 integer variables: "
             "assign / arith / bitwise / assume (in-language and general linear constraints, strict, disequations, non-unit coefficients) / select / forget / project / rename / expand / "
             "join / meet / widen / narrow / in-place join, meet / copy / normalize / minimize; replayed by the driver on <=40 concrete witness states per value "
@@ -160,7 +170,7 @@ PROPS = {
     "C03": {
         "level": "proof",
         "lean_modules": ["CrabProofs.Props.C03", "CrabProofs.Props.C03Itv", "CrabProofs.Props.C03Cst", "CrabProofs.Props.C03Sgn",
-                         "CrabProofs.Props.C03CongDom", "CrabProofs.Props.C03Ric", "CrabProofs.Props.C03Rel"],
+                         "CrabProofs.Props.C03CongDom", "CrabProofs.Props.C03Ric", "CrabProofs.Props.C03Rel", "CrabProofs.Props.C03Functors"],
         "components": [idom_component("[C03]")] + xdom_components("[C03]") + dom_components("[C03]", 900, 12000) + dom2_components("[C03]", 400, 6000),
         "rule": DOM_RULE, "assumptions": DOM_ASSUME,
         "trusted_base": COMMON_TB + ["driver concrete semantics: lean/Driver/DomH.lean (definitions of the witness replay and of membership)"],
@@ -168,7 +178,7 @@ PROPS = {
     "C04": {
         "level": "proof",
         "lean_modules": ["CrabProofs.Props.C04", "CrabProofs.Props.C04Itv", "CrabProofs.Props.C04Cst", "CrabProofs.Props.C04Sgn",
-                         "CrabProofs.Props.C04CongDom", "CrabProofs.Props.C04Ric", "CrabProofs.Props.C04Rel"],
+                         "CrabProofs.Props.C04CongDom", "CrabProofs.Props.C04Ric", "CrabProofs.Props.C04Rel", "CrabProofs.Props.C04Functors"],
         "components": [idom_component("[C04]")] + xdom_components("[C04]") + dom_components("[C04]", 700, 10000) + dom2_components("[C04]", 300, 5000),
         "rule": DOM_RULE + "; C04 adds: all ordered pairs of the final pool for <=, x<=x, bot<=x, x<=top, is_bottom(bottom), is_top(top), is_top/is_bottom after set_to_*",
         "assumptions": DOM_ASSUME,
@@ -194,9 +204,9 @@ PROPS = {
     },
     "C05": {
         "level": "proof",
-        "lean_modules": ["CrabProofs.Props.C05", "CrabProofs.Props.C05Itv", "CrabProofs.Props.C05Chain", "CrabProofs.Props.C05Zones", "CrabProofs.Props.C05XDom", "CrabProofs.Props.C05Rel"],
-        "components": [dict(FIX_COMPONENT, timeout=600)] + wchain_components() + zw_components(),
-        "rule": "(1) same iterator harness as C06; every run is executed under a wall-clock watchdog; the model needs finite fuel on every generated CFG. (2) widening chains x_i = x_{i-1} widen y_i over 25 shipped domain instantiations and the wrapped_interval scalar (all widths): y_i independent values, loop-body images F(x_{i-1}) and F(x_{i-1}) | x0; plain widening, widening_thresholds with random threshold sets, delayed widening; adversarial sequences (ever-growing bounds, alternating variables, new relations, constants jumping over thresholds) and realistic loop bodies; every witness of both arguments must satisfy the result, the chain must reach a stationary suffix within 60-300 steps; narrowing of decreasing pairs must keep the second argument's states; non-trivial = at least two non-stationary steps. (3) zones widening chains given by in-language constraints (2-5 variables; two/three-counter families, one-constant-moves, translated loops, random and infeasible values; plain / widening_thresholds / probed / operator[]-on-stored modes) over split_dbm and sparse_dbm (5 instantiations) replayed by the PROVED model of C05Zones: bottom-ness, both inclusion flags and the closed result are compared entrywise per step",
+        "lean_modules": ["CrabProofs.Props.C05", "CrabProofs.Props.C05Itv", "CrabProofs.Props.C05Chain", "CrabProofs.Props.C05Zones", "CrabProofs.Props.C05XDom", "CrabProofs.Props.C05Rel", "CrabProofs.Props.C05Oct"],
+        "components": [dict(FIX_COMPONENT, timeout=600)] + wchain_components() + zw_components() + ow_components(),
+        "rule": "(1) same iterator harness as C06; every run is executed under a wall-clock watchdog; the model needs finite fuel on every generated CFG. (2) widening chains x_i = x_{i-1} widen y_i over 25 shipped domain instantiations and the wrapped_interval scalar (all widths): y_i independent values, loop-body images F(x_{i-1}) and F(x_{i-1}) | x0; plain widening, widening_thresholds with random threshold sets, delayed widening; adversarial sequences (ever-growing bounds, alternating variables, new relations, constants jumping over thresholds) and realistic loop bodies; every witness of both arguments must satisfy the result, the chain must reach a stationary suffix within 60-300 steps; narrowing of decreasing pairs must keep the second argument's states; non-trivial = at least two non-stationary steps. (3) zones widening chains given by in-language constraints (2-5 variables; two/three-counter families, one-constant-moves, translated loops, random and infeasible values; plain / widening_thresholds / probed / operator[]-on-stored modes) over split_dbm and sparse_dbm (5 instantiations) replayed by the PROVED model of C05Zones: bottom-ness, both inclusion flags and the closed result are compared entrywise per step. (4) the same for the split_oct widening (2 instantiations): stored graph, vertex map and unstable set compared entrywise with the proved model of operator|| / split_widen / split_widen_rels, both inclusion flags, tight closures, witness containment",
         "assumptions": ["the widening chain condition is proved for intervals, the interval domain, congruences, constants and signs; for the other shipped domains it is tested by the chain harness (no stationary suffix within N steps is reported, a run cannot prove non-termination)", "inter-procedural recursion loops are only exercised by the C09 harness under its watchdog"],
         "trusted_base": COMMON_TB + ["model: CrabModel/Fix/Interleaved.lean"],
     },
